@@ -1,6 +1,6 @@
 /-
   C03 / C04 — translator tie for the write paths of kvgraph (tools/extract/c03_writes.go → GripGen.KVWrites,
-  regenerated from /repo's kvgraph/graph.go and kvgraph/graphdb.go on every run).
+  regenerated from /repo's kvgraph/graph.go, kvgraph/graphdb.go and kvindex/kvindex.go on every run).
 
   The MODEL (`Grip.C03.step`, Grip/Model/C03.lean; `Grip.C04.writes`, the same code as its top-level writes)
   assumes, per Go function, WHICH store calls are issued, in WHICH order, through WHICH key constructor and
@@ -66,7 +66,29 @@ def expectedWrites : List (String × String × String × String × String) := [
   ("deleteGraphData", "top", "kv", "DeletePrefix", "VertexListPrefix"),
   ("deleteGraphData", "top", "kv", "DeletePrefix", "SrcEdgeListPrefix"),
   ("deleteGraphData", "top", "kv", "DeletePrefix", "DstEdgeListPrefix"),
-  ("deleteGraphData", "top", "kgraph", "call deleteGraphIndex", "")
+  ("deleteGraphData", "top", "kgraph", "call deleteGraphIndex", ""),
+  -- kvindex (C09's model `Grip.C09`): a field is registered by one Set of its field key, dropped by the
+  -- two prefix deletes and the delete of the field key
+  ("AddField", "top", "KV", "Set", "FieldKey"),
+  ("RemoveField", "top", "KV", "DeletePrefix", "TermPrefix"),
+  ("RemoveField", "top", "KV", "DeletePrefix", "EntryPrefix"),
+  ("RemoveField", "top", "KV", "Delete", "FieldKey"),
+  -- AddDoc: ONE Update that first removes the previous version of the document, then writes the new one
+  -- (fix 434cd4c); RemoveDoc: ONE Update around removeDocTx
+  ("AddDoc", "top", "KV", "Update", ""),
+  ("AddDoc", "Update", "idx", "call removeDocTx", ""),
+  ("AddDoc", "Update", "idx", "AddDocTx", ""),
+  -- AddDocTx: per indexed value Set(entry key), Set(term key); then Set(doc key) with the entry list
+  ("AddDocTx", "top", "tx", "Set", "EntryKey"),
+  ("AddDocTx", "top", "tx", "Set", "TermKey"),
+  ("AddDocTx", "top", "tx", "Set", "DocKey"),
+  ("RemoveDoc", "top", "KV", "Update", ""),
+  ("RemoveDoc", "Update", "idx", "call removeDocTx", ""),
+  -- removeDocTx: every stored entry deleted, its term deleted (count 0) or re-Set (count - 1), the doc key last
+  ("removeDocTx", "top", "tx", "Delete", "range doc.Entries"),
+  ("removeDocTx", "top", "tx", "Delete", "TermKey"),
+  ("removeDocTx", "top", "tx", "Set", "TermKey"),
+  ("removeDocTx", "top", "tx", "Delete", "DocKey")
 ]
 
 /-- **The write paths of today's kvgraph have the shape the model assumes** (regenerated table). -/
